@@ -1,6 +1,9 @@
 package main
 
 import (
+	"encoding/json"
+	"io"
+
 	"verif/harness/hk"
 
 	"context"
@@ -52,6 +55,7 @@ func runRetry(c *hk.Ctx) {
 	retryValidate(c)
 	retryClassify(c)
 	retryExecute(c)
+	retryEndToEnd(c)
 	if c.Thorough() {
 		retryOverflowReachable(c)
 	}
@@ -228,6 +232,8 @@ func retryClassify(c *hk.Ctx) {
 	}
 }
 
+var errSentinel = errors.New("HTTP request failed")
+
 type scriptedOp struct {
 	mu    sync.Mutex
 	times []time.Time
@@ -242,7 +248,12 @@ func (s *scriptedOp) call() error {
 	if i >= len(s.outs) || s.outs[i] == nil {
 		return nil
 	}
-	return errors.New(s.outs[i].(string))
+	msg := s.outs[i].(string)
+	// build the error the way the transports do: a shared sentinel wrapped with %w
+	if rest, ok := strings.CutPrefix(msg, errSentinel.Error()+": "); ok {
+		return fmt.Errorf("%w: %s", errSentinel, rest)
+	}
+	return errors.New(msg)
 }
 
 func retryExecute(c *hk.Ctx) {
@@ -290,6 +301,15 @@ func retryExecute(c *hk.Ctx) {
 			cfg := &mcp.VerifRetryConfig{MaxRetries: 3, InitialBackoff: time.Duration(12 * ms), BackoffFactor: f, MaxBackoff: time.Duration(mbm * ms)}
 			cases = append(cases, cas{cfg: cfg, script: []any{"EOF", outcomes[4], "EOF", nil}})
 		}
+	}
+	// long sequences: all MaxRetries+1 attempts of the largest configuration, so that the 9th and 10th waits are observed
+	{
+		long := []any{}
+		for i := 0; i < 11; i++ {
+			long = append(long, "EOF")
+		}
+		cases = append(cases, cas{cfg: &mcp.VerifRetryConfig{MaxRetries: 10, InitialBackoff: time.Duration(ms), BackoffFactor: 2, MaxBackoff: 5 * time.Minute}, script: long})
+		cases = append(cases, cas{cfg: &mcp.VerifRetryConfig{MaxRetries: 10, InitialBackoff: time.Duration(4 * ms), BackoffFactor: 1.5, MaxBackoff: time.Duration(100 * ms)}, script: long})
 	}
 	// overflow region of the wait computation (unreachable through WithRetry; exercises the conversion the reachable
 	// case 9.3s x 10^9 hits after 84 s — see retryOverflowReachable)
@@ -444,4 +464,112 @@ func retryOverflowReachable(c *hk.Ctx) {
 			break
 		}
 	}
+}
+
+// retryEndToEnd drives the real Streamable client (WithRetry) against a scripted HTTP server and counts the attempts the
+// server sees for one tools/list call; the model predicts them from the transports' real error texts.
+func retryEndToEnd(c *hk.Ctx) {
+	type script []int // HTTP statuses for successive attempts; 200 = a valid answer; 0 = close the connection without answering
+	scripts := []script{{200}, {503, 200}, {503, 404, 404, 404, 404}, {404, 200}, {500, 502, 503, 504, 200}, {429, 200}, {408, 409, 200}, {400}, {401, 200}, {503, 503, 503, 503, 503, 503},
+		{0, 200}, {503, 400, 200}, {502, 403, 403}, {200, 503}}
+	for _, mr := range []int{0, 1, 3} {
+		for _, sc := range scripts {
+			sc := sc
+			var mu sync.Mutex
+			attempts := 0
+			srv := httptest.NewServer(http.HandlerFunc(func(w http.ResponseWriter, r *http.Request) {
+				body, _ := io.ReadAll(r.Body)
+				var m map[string]any
+				json.Unmarshal(body, &m)
+				method, _ := m["method"].(string)
+				switch method {
+				case "initialize":
+					w.Header().Set("Content-Type", "application/json")
+					fmt.Fprintf(w, `{"jsonrpc":"2.0","id":%v,"result":{"protocolVersion":"2025-03-26","capabilities":{"tools":{}},"serverInfo":{"name":"s","version":"1"}}}`, jsonID(m["id"]))
+				case "tools/list":
+					mu.Lock()
+					i := attempts
+					attempts++
+					mu.Unlock()
+					st := 200
+					if i < len(sc) {
+						st = sc[i]
+					}
+					switch st {
+					case 200:
+						w.Header().Set("Content-Type", "application/json")
+						fmt.Fprintf(w, `{"jsonrpc":"2.0","id":%v,"result":{"tools":[]}}`, jsonID(m["id"]))
+					case 0:
+						if hj, ok := w.(http.Hijacker); ok {
+							cn, _, _ := hj.Hijack()
+							cn.Close()
+						}
+					default:
+						http.Error(w, "scripted", st)
+					}
+				default:
+					w.WriteHeader(202)
+				}
+			}))
+			opts := []mcp.ClientOption{mcp.WithClientLogger(hk.QuietLogger{}), mcp.WithClientGetSSEEnabled(false)}
+			if mr > 0 {
+				opts = append(opts, mcp.WithRetry(mcp.RetryConfig{MaxRetries: mr, InitialBackoff: time.Millisecond, BackoffFactor: 1, MaxBackoff: time.Millisecond}))
+			}
+			cl, err := mcp.NewClient(srv.URL, mcp.Implementation{Name: "v", Version: "1"}, opts...)
+			if err != nil {
+				srv.Close()
+				continue
+			}
+			ctx, cancel := context.WithTimeout(context.Background(), 10*time.Second)
+			_, ierr := cl.Initialize(ctx, &mcp.InitializeRequest{})
+			var callErr error
+			if ierr == nil {
+				_, callErr = cl.ListTools(ctx, &mcp.ListToolsRequest{})
+			}
+			cancel()
+			cl.Close()
+			srv.Close()
+			if ierr != nil {
+				c.Noise()
+				continue
+			}
+			// the op for the model: the script as error texts of the Streamable client
+			var texts []any
+			for _, st := range sc {
+				switch st {
+				case 200:
+					texts = append(texts, nil)
+				case 0:
+					texts = append(texts, "HTTP request failed: Post \"http://x\": EOF")
+				default:
+					texts = append(texts, fmt.Sprintf("HTTP request failed: status code %d", st))
+				}
+			}
+			var cj any
+			if mr > 0 {
+				cj = cfgJSON(mcp.VerifRetryConfig{MaxRetries: mr, InitialBackoff: time.Millisecond, BackoffFactor: 1, MaxBackoff: time.Millisecond})
+			}
+			res := "success"
+			if callErr != nil {
+				res = fmt.Sprintf("opErr:%d", attempts)
+			}
+			c.Emit(map[string]any{"c": "retry.e2e", "cfg": cj, "script": texts}, map[string]any{"attempts": attempts, "result": res}, attempts > 1, "e2e-streamable")
+			// model-free oracles
+			for i := 0; i+1 < attempts && i < len(sc); i++ {
+				st := sc[i]
+				if st == 200 || (st >= 400 && st < 500 && st != 408 && st != 409 && st != 429) {
+					c.Violate(hk.Violation{Fingerprint: fmt.Sprintf("retry.e2e:retried-after-%d", st), What: "the Streamable client re-attempted a request after a success or a non-transient 4xx answer",
+						Input: map[string]any{"max_retries": mr, "status_script": sc}, Observed: map[string]any{"attempts_seen_by_server": attempts}})
+				}
+			}
+			if attempts > mr+1 {
+				c.Violate(hk.Violation{Fingerprint: "retry.e2e:too-many-attempts", What: "more than MaxRetries+1 attempts reached the server", Input: map[string]any{"max_retries": mr, "status_script": sc}, Observed: attempts})
+			}
+		}
+	}
+}
+
+func jsonID(v any) string {
+	b, _ := json.Marshal(v)
+	return string(b)
 }
